@@ -138,4 +138,98 @@ theorem removeShared_noDangling (f : Facts) (x : Ext) (d : J) (h : NoDangling f 
     rw [hdefs] at hn
     exact hn
 
+/-! ### no `$ref` at all stays no `$ref` at all -/
+
+/-- the analyzer sees no `$ref` of any kind -/
+def RefFree (f : Facts) (d : J) : Prop := Index.refsWhere (fun _ => true) (analyze f d) = []
+
+theorem refsWhere_nil_iff (es : List Ent) :
+    Index.refsWhere (fun _ => true) es = [] ↔ ∀ e ∈ es, ∀ k key r, e ≠ Ent.ref k key r := by
+  unfold Index.refsWhere
+  rw [List.filterMap_eq_nil_iff]
+  constructor
+  · intro h e he k key r heq
+    have := h e he
+    rw [heq] at this
+    simp at this
+  · intro h e he
+    cases e with
+    | ref k key r => exact absurd rfl (h _ he k key r)
+    | _ => rfl
+
+/-- fewer definitions, same other parts: still no `$ref` -/
+theorem refFree_of_fewer_defs (f : Facts) (d d' : J) (p : String × J → Bool)
+    (h : ∀ k, k ≠ "definitions" → d'.get? k = d.get? k)
+    (hd : d'.getObj "definitions" = (d.getObj "definitions").filter p) (hr : RefFree f d) : RefFree f d' := by
+  unfold RefFree at *
+  rw [refsWhere_nil_iff] at *
+  intro e he
+  apply hr e
+  rw [analyze_split, restOf_congr f d d' h, hd] at he
+  rw [analyze_split]
+  rcases List.mem_append.1 he with he | he
+  · exact List.mem_append_left _ he
+  · exact List.mem_append_right _ (defsPart_filter_subset p _ e he)
+
+theorem singlePass_refFree (f : Facts) (x : Ext) (d : J) (hr : RefFree f d) : RefFree f (singlePass f x d).1 :=
+  refFree_of_fewer_defs f d _ (fun kv => (usedNames f x d).contains kv.1)
+    (fun k hk => Proofs.RemoveUnused.singlePass_get?_ne f x d k hk) (Proofs.RemoveUnused.singlePass_getObj f x d) hr
+
+theorem removeUnused_refFree (f : Facts) (x : Ext) :
+    ∀ (fuel : Nat) (d d' : J), removeUnused f x fuel d = .ok d' → RefFree f d → RefFree f d'
+  | 0, _, _, h, _ => by cases h
+  | fuel + 1, d, d', h, hn => by
+    unfold removeUnused at h
+    dsimp only at h
+    split at h
+    · exact removeUnused_refFree f x fuel _ d' h (singlePass_refFree f x d hn)
+    · cases h
+      exact singlePass_refFree f x d hn
+
+theorem removeShared_refFree (f : Facts) (d : J) (hr : RefFree f d) : RefFree f (removeShared d) := by
+  have hne : ∀ k, k ≠ "parameters" → k ≠ "responses" → (removeShared d).get? k = d.get? k :=
+    Proofs.RemoveUnused.get?_removeShared_ne d
+  have hp : (removeShared d).getObj "parameters" = [] := by
+    unfold J.getObj; rw [Proofs.RemoveUnused.get?_removeShared_parameters]
+  have hq : (removeShared d).getObj "responses" = [] := by
+    unfold J.getObj; rw [Proofs.RemoveUnused.get?_removeShared_responses]
+  unfold RefFree at *
+  rw [refsWhere_nil_iff] at *
+  intro e he
+  apply hr e
+  rw [analyze_split] at he ⊢
+  rcases List.mem_append.1 he with he | he
+  · apply List.mem_append_left
+    unfold restOf Doc.pathItems at he ⊢
+    rw [hp, hq, getStrs_congr (hne "consumes" (by decide) (by decide)),
+      getStrs_congr (hne "produces" (by decide) (by decide)),
+      getArr_congr (hne "security" (by decide) (by decide)),
+      getObj_congr (hne "paths" (by decide) (by decide))] at he
+    simp only [List.flatMap_nil, List.append_nil] at he
+    simp only [List.mem_append] at he ⊢
+    exact Or.inl (Or.inl he)
+  · apply List.mem_append_right
+    rw [getObj_congr (hne "definitions" (by decide) (by decide))] at he
+    exact he
+
+/-- the removal loop on a `$ref`-free document: it returns (no error, no starvation with the fuel the
+    phase gives it) a document without definitions -/
+theorem removeUnused_refFree_result (f : Facts) (x : Ext) (d : J) (hr : RefFree f d) :
+    ∃ d', removeUnused f x ((d.getObj "definitions").length + 2) d = .ok d' ∧ RefFree f d' := by
+  have hne := Proofs.RemoveUnused.removeUnused_ne_outOfFuel f x ((d.getObj "definitions").length + 2) d (by omega)
+  -- the loop has only two outcomes
+  have hcases : ∀ (fuel : Nat) (d0 : J), (∃ d', removeUnused f x fuel d0 = .ok d') ∨ removeUnused f x fuel d0 = .outOfFuel := by
+    intro fuel
+    induction fuel with
+    | zero => intro d0; exact .inr rfl
+    | succ n ih =>
+      intro d0
+      simp only [removeUnused]
+      split
+      · exact ih _
+      · exact .inl ⟨_, rfl⟩
+  rcases hcases ((d.getObj "definitions").length + 2) d with ⟨d', hd'⟩ | hoof
+  · exact ⟨d', hd', removeUnused_refFree f x _ d d' hd' hr⟩
+  · exact absurd hoof hne
+
 end Proofs.RemoveUnusedDangling
